@@ -27,6 +27,10 @@ func runC09(r *engine.Run) {
 	r.Rule("ORDER-survivor", "a node whose hash insert/delete schedules for deletion (tempDeleted) is not kept in the new trie on the same path: the hash of a child that is merely re-parented must not be scheduled")
 	r.Rule("DOM-range", "getBlockProof descends into child i only when block <= child.Weight() tested true, and continues the scan with block reduced by that child's weight")
 	r.Rule("DOM-sentinel", "a scan that keeps the number of the only matching slot of an N-slot array in one integer together with constants for 'none'/'several': every such constant lies outside [0,N), and the comparison that leads to the use of the integer as a slot number holds for every slot number and fails for every sentinel (decided by evaluating the comparison over the finite domains)")
+	r.Rule("ERR-guard", "wherever the error of a call is compared with nil and one successor of the test is a plain return block, that successor is the error != nil edge and returns a non-nil error (the error itself, a sentinel or a constructed error); an early return handing back the error on the edge where it is nil is a swapped test")
+	r.Rule("ERR-dropped", "the error result of every repository operation (trie, node store, storage adapter/batcher methods) called here is looked at - compared, returned or stored; deliberate drops are an explicit table with reasons")
+	r.Rule("DEP-linkback", "the node returned by every self-recursive call of insert and delete is stored into the parent (a child slot or the shared-prefix node's value) or returned: a rebuilt subtree is never dropped while the weights above it change")
+	r.Rule("AGREE-update", "an update in place of an existing value node stores both hashed fields (value bytes and weight) from the payload; the shortcut that skips the update (zero change, same node) is taken only where the bytes tested equal AND the weights tested equal")
 	r.NotDec = append(r.NotDec, "the numeric equalities themselves (total weight = sum of live weights, block ownership, root = independent computation)")
 	exhW(r, "EXH-W", []string{"insert", "delete", "getBlockProof", "markToCollect"})
 	depWeight(r)
@@ -40,6 +44,10 @@ func runC09(r *engine.Run) {
 			wf = append(wf, f)
 		}
 	}
+	errGuard(r, "ERR-guard", "ERR-dropped", wf, 20)
+	depLinkBack(r, "DEP-linkback")
+	agreeUpdate(r, "AGREE-update")
+	domNoChange(r, "AGREE-update")
 	if n := domSentinel(r, "DOM-sentinel", wf); n < 1 {
 		r.Anchor("DOM-sentinel", fmt.Errorf("unresolved anchor: no single-slot scan with sentinels found in the weighted trie (delete's reduction step is expected to be one)"))
 	}
@@ -690,4 +698,186 @@ func shortVal(v ssa.Value) string {
 		return "*" + nm.Obj().Name()
 	}
 	return v.Type().String()
+}
+
+// depLinkBack: the subtree a recursive insert/delete returns becomes part of the
+// trie: the node result of every self-recursive call is stored into a child
+// slot (Children[i] / value) or returned; a result that is only compared is a
+// subtree that was rebuilt and then forgotten.
+func depLinkBack(r *engine.Run, rule string) {
+	n := 0
+	for _, name := range []string{"insert", "delete"} {
+		f := wfn(r, rule, name)
+		if f == nil {
+			continue
+		}
+		o := ord{}
+		engine.Instrs(f, func(in ssa.Instruction) {
+			c, ok := in.(*ssa.Call)
+			if !ok || c.Call.StaticCallee() != f {
+				return
+			}
+			var node ssa.Value
+			for _, ref := range engine.Referrers(c) {
+				if ex, ok := ref.(*ssa.Extract); ok && ex.Index == 1 {
+					node = ex
+				}
+			}
+			n++
+			linked := false
+			if node != nil {
+				seen := map[ssa.Value]bool{}
+				var walk func(v ssa.Value)
+				walk = func(v ssa.Value) {
+					if seen[v] {
+						return
+					}
+					seen[v] = true
+					for _, ref := range engine.Referrers(v) {
+						switch x := ref.(type) {
+						case *ssa.Store:
+							if x.Val == v {
+								linked = true
+							}
+						case *ssa.Return:
+							linked = true
+						case *ssa.Phi:
+							walk(x)
+						case *ssa.MakeInterface:
+							walk(x)
+						case *ssa.TypeAssert:
+							walk(x)
+						case *ssa.Extract:
+							walk(x)
+						}
+					}
+				}
+				walk(node)
+			}
+			r.Check(linked, rule, o.next(fn(f)+"|recursive result"), r.P.Pos(c.Pos()), "the returned subtree is stored into the parent or returned",
+				"the subtree returned by the recursive call is neither stored into the parent's slot nor returned: the change below this node is lost while weights and hashes above it are updated")
+		})
+	}
+	if n < 5 {
+		r.Anchor(rule, fmt.Errorf("unresolved anchor: %d recursive calls in insert/delete", n))
+	}
+}
+
+// agreeUpdate: an update in place of an existing value replaces both hashed
+// fields of the value node (the bytes and the weight) from the payload.
+func agreeUpdate(r *engine.Run, rule string) {
+	f := wfn(r, rule, "insert")
+	if f == nil {
+		return
+	}
+	var payload ssa.Value
+	for _, p := range f.Params {
+		if p.Name() == "value" {
+			payload = p
+		}
+	}
+	if payload == nil {
+		r.Anchor(rule, fmt.Errorf("unresolved anchor: payload parameter of insert"))
+		return
+	}
+	// stores into fields of a *valueNode that is not the payload itself
+	byObj := map[ssa.Value]map[string]bool{}
+	var where = map[ssa.Value]ssa.Instruction{}
+	engine.Instrs(f, func(in ssa.Instruction) {
+		st, ok := in.(*ssa.Store)
+		if !ok {
+			return
+		}
+		fa, ok := st.Addr.(*ssa.FieldAddr)
+		if !ok {
+			return
+		}
+		nm := namedOf(fa.X.Type())
+		if nm == nil || nm.Obj().Name() != "valueNode" || dependsOn(fa.X, payload) {
+			return
+		}
+		name := engine.FieldOf(fa).Name()
+		if name != "value" && name != "weight" {
+			return
+		}
+		if !dependsOn(st.Val, payload) {
+			return
+		}
+		if byObj[fa.X] == nil {
+			byObj[fa.X] = map[string]bool{}
+		}
+		byObj[fa.X][name] = true
+		where[fa.X] = st
+	})
+	n := 0
+	for obj, set := range byObj {
+		n++
+		r.Check(set["value"] && set["weight"], rule, fn(f)+"|update in place", r.P.Pos(where[obj].Pos()), "both the bytes and the weight of the existing value node are replaced from the payload",
+			fmt.Sprintf("an update in place replaces only part of the value node (value: %v, weight: %v): the node keeps the other half of the old entry while the ancestors' weights follow the new one", set["value"], set["weight"]))
+	}
+	if n < 1 {
+		r.Fail(rule, fn(f)+"|update in place", r.P.Pos(f.Pos()), "insert no longer stores the payload's bytes or weight into an existing value node: an update of a present key changes the ancestors' weights but not the entry")
+	}
+}
+
+// domNoChange: the "nothing changed" shortcut of an update in place (return of
+// a zero weight change with the existing node) is taken only when both hashed
+// fields are unchanged: the value bytes tested equal and the weights tested
+// equal. A shortcut keyed on the bytes alone drops an update that changes only
+// the weight.
+func domNoChange(r *engine.Run, rule string) {
+	f := wfn(r, rule, "insert")
+	if f == nil {
+		return
+	}
+	isWeight := func(v ssa.Value) bool {
+		for {
+			if cv, ok := v.(*ssa.Convert); ok {
+				v = cv.X
+				continue
+			}
+			break
+		}
+		if c, ok := v.(*ssa.Call); ok {
+			if _, is := engine.IsMethodCall(c, "Weight"); is {
+				return true
+			}
+		}
+		if fld := fieldLoadOf(v); fld != nil && fld.Name() == "weight" {
+			return true
+		}
+		return false
+	}
+	n := 0
+	o := ord{}
+	for _, ret := range engine.Returns(f) {
+		if len(ret.Results) != 3 || !nilConst(ret.Results[2]) || !isZero(ret.Results[0]) {
+			continue
+		}
+		mi, ok := ret.Results[1].(*ssa.MakeInterface)
+		if !ok {
+			continue
+		}
+		if nm := namedOf(mi.X.Type()); nm == nil || nm.Obj().Name() != "valueNode" {
+			continue
+		}
+		n++
+		facts, full := engine.FactsOn(f, ret.Block())
+		bytesEq, weightEq := false, false
+		if full {
+			for _, ft := range facts {
+				if ft.Kind == "bool" && ft.Truth {
+					if c, ok := ft.A.(*ssa.Call); ok && extCalleeIs(c, "bytes", "", "Equal") {
+						bytesEq = true
+					}
+				}
+				if ft.Kind == "eq" && ft.Truth && isWeight(ft.A) && isWeight(ft.B) {
+					weightEq = true
+				}
+			}
+		}
+		r.Check(bytesEq && weightEq, rule, o.next(fn(f)+"|nothing-changed shortcut"), r.P.Pos(ret.Pos()), "taken only when the bytes and the weight both tested equal",
+			fmt.Sprintf("the shortcut that skips an update in place is taken without comparing both hashed fields (bytes equal tested: %v, weights equal tested: %v): an update that changes only the weight is ignored, so the total weight no longer equals the sum of the live weights", bytesEq, weightEq))
+	}
+	_ = n
 }
